@@ -11,7 +11,7 @@ package c02
 //     idref, ...) retargeted to every member of the package - itself, its own
 //     relationship part, the package root - and to ids used elsewhere;
 //   - every distinct element (by name, first occurrence per member): deleted,
-//     repeated up to 2000 times (at most 600 KB), nested 3000 deep inside copies of its own start tag.
+//     repeated up to 500 times (at most 600 KB), nested 3000 deep inside copies of its own start tag.
 
 import (
 	"fmt"
@@ -288,7 +288,10 @@ func pkgFaults(d pkgDoc, stride int, emit emitFn) {
 			add(fmt.Sprintf("%s: element <%s> deleted", m.name, name), func() []byte { return with(i, splice(m.data, s0, e0-s0, "")) })
 			// at most ~600 KB of additional XML: a case runs 24 operations on the file, and a reader that needs a
 			// few hundred milliseconds per megabyte must not be mistaken for one that hangs
-			if times := min(2000, 600000/len(el)); times >= 20 {
+			// and at most 500 copies: a copied element that refers to other parts (a slide list entry, a spine
+			// item) makes the reader load those parts once per copy - linear, but 24 operations times 2000 slides
+			// exceeded the ceiling without anything hanging
+			if times := min(500, 600000/len(el)); times >= 20 {
 				add(fmt.Sprintf("%s: element <%s> repeated %d times", m.name, name, times), func() []byte {
 					return with(i, splice(m.data, s0, 0, strings.Repeat(el, times)))
 				})
